@@ -57,6 +57,13 @@ def check_repo_import():
 # ------------------------------------------------------------------------------------------
 # executing one spec
 
+FRAMEWORK_RULE = (" [Framework-wide dimensions, where the check simulates: 'pre' throw-away elaborations before the "
+                  "simulated one; 'companions' (labels companion:twin/other/cross) - further cases constructed first and "
+                  "then simulated in the same design, each judged by its own oracle; 'prelude' - garbage on all inputs, then "
+                  "a domain reset, before the testbench starts; 'reset_less_domain'. Companion cases do not count towards "
+                  "evaluations, classes or distinct_nontrivial.]")
+
+
 def run_one(mod, spec, stats):
     """Run check on one spec. Returns None (held) or (bucket, detail) for a violation.
     Raises for harness errors."""
@@ -362,7 +369,7 @@ def main_check(pid, tier):
         "coverage": {
             "evaluations": evaluations,
             "distinct_nontrivial": len(nontrivial),
-            "rule": mod.RULE,
+            "rule": mod.RULE + FRAMEWORK_RULE,
             "samples": [_trim(s) for s in samples] or ["<none>"],
             "classes": {k: totals[k] for k in sorted(totals)},
             "workers": nworkers,
